@@ -9,6 +9,10 @@ CHECKS = {
    text="TLC checks the GetStream design (register-before-flush, delete-own-only) for every interleaving of up to 4 streams and 3 sends; every edge of the finest-grain state graph is then forced on the real GET handler / push path through hook gates and the raw peer's observations are compared with the oracle carried in the graph; recorded black-box traces (replays and ungated reconnect storms) are validated by TLC against TraceGetStream.",
    note="Trusted: TLC, the hook gates only steer (verdicts come from what a raw HTTP peer sees), bounds 3 streams x 2 sends for replay. Sequential opens as in the statement.",
    technique="TLA+ model checking (TLC) + gate-forced schedule replay + TLC trace validation"),
+ "C09": dict(level="model_checking", design="DESIGN.md §5 C09",
+   text="TLC checks the Framing design (per-stream lock over all Write calls of a frame) for 4 frames x 3 parts and finds the interleaving without the lock; every interleaving of the Write calls (all root-to-leaf paths of the unlocked model's state graph) is forced on the real stdio-server and GET-stream writers through write-point gates; an independent reference reader cuts the recorded bytes; chunk logs of the replays and of ungated stress runs (stdio, GET stream, legacy SSE) are validated by TLC against TraceFraming.",
+   note="Trusted: TLC, the recording writer, the reference SSE/line readers. Streams without intra-frame write points (legacy SSE single Fprint, stdio client stdin) are covered by stress only. A user tool sharing one notification sender between its own goroutines is outside the statement.",
+   technique="TLA+ model checking (TLC) + gate-forced interleaving replay + TLC trace validation of chunk logs"),
 }
 NA = {
  "C20": "data-race freedom is a statement about individual memory accesses under the Go memory model; an abstract state-machine specification has no notion of them (see DESIGN.md §6)",
